@@ -60,7 +60,7 @@ func (s *genState) flush() {
 	case s.faults && x < 25:
 		o.F, o.S = "append", s.slack()
 	case s.faults && x < 45:
-		o.F = lib.Pick(s.g, []string{"fsync", "fsync", "prewrite", "norepair"})
+		o.F = lib.Pick(s.g, []string{"fsync", "fsync", "prewrite", "norepair", "fsync-norepair"})
 		if o.F == "norepair" {
 			o.S = lib.Pick(s.g, []int{1, 6, 7, 11, 20, 30})
 		}
@@ -68,7 +68,7 @@ func (s *genState) flush() {
 		o.F = "create"
 	}
 	s.emit(o)
-	if o.F == "norepair" {
+	if o.F == "norepair" || o.F == "fsync-norepair" {
 		// the writer is blocked until the process is restarted: do that soon
 		for i := s.g.Intn(3); i > 0; i-- {
 			s.set(s.setHeight())
@@ -201,7 +201,7 @@ func (s *genState) randomOp() {
 	case x < 78:
 		s.flush()
 	case x < 83:
-		s.emit(Op{K: "close", F: lib.Pick(s.g, []string{"", "", "closewriter", "closewriter-norepair", "fsync", "create"})})
+		s.emit(Op{K: "close", F: lib.Pick(s.g, []string{"", "", "closewriter", "closewriter-norepair", "fsync", "create", "fsync-norepair", "closemanager", "closemanager"})})
 		s.committed("")
 		s.closed = true
 	case x < 95:
@@ -357,6 +357,12 @@ func fixedHistories() []fixed {
 			o("set", 7, 5), {K: "flush"}, {K: "close"}, {K: "open"}, o("set", 6, 6), o("set", 8, 7), {K: "flush"}, {K: "crash", C: "flush", I: 4}, {K: "open"}}},
 		// height 0: the watermark value 0 also means "nothing pruned" (DESIGN §7 L8)
 		{"fixed-height0", []Op{{K: "open"}, o("set", 0, 1), o("set", 1, 2), o("del", 0, 0), {K: "flush"}, {K: "close"}, {K: "open"}, o("set", 0, 3), {K: "flush"}}},
+		// the double failure that leaves a reported-failed batch on disk (limbo): blocked store, refused
+		// flush, close / crash, restart finds the whole batch; then the same with a prune in the batch
+		{"fixed-limbo", []Op{{K: "open"}, o("set", 1, 1), {K: "flush"}, o("set", 1, 2), o("set", 2, 3), {K: "flush", F: "fsync-norepair"}, o("set", 2, 4), {K: "flush"},
+			{K: "close"}, {K: "open"}, o("set", 3, 5), o("del", 1, 0), {K: "flush", F: "fsync-norepair"}, {K: "flush"}, {K: "crash", C: "idle"}, {K: "open"},
+			o("set", 3, 6), {K: "close", F: "fsync-norepair"}, {K: "open"}, o("set", 4, 7), {K: "crash", C: "flush", F: "fsync-norepair", I: 4}, {K: "open"},
+			o("set", 4, 8), {K: "flush", F: "fsync-norepair"}, {K: "crash", C: "close"}, {K: "open"}, o("set", 5, 9), {K: "close", F: "closemanager"}, {K: "open"}, {K: "flush"}}},
 		{"fixed-empty", []Op{{K: "open"}, {K: "flush"}, {K: "close"}, {K: "open"}, {K: "crash", C: "idle"}, {K: "open"}, {K: "close"}, {K: "close"}, {K: "open"}}},
 	}
 }
